@@ -150,6 +150,12 @@ func (w *cfgWriter) body(b m.BodyM, level int, selfOK bool) {
 		case "for_each":
 			w.attrLine(level, "for_each", g.exprFor(m.ConsM{K: "any", Ty: m.TyOf(cty.Map(cty.DynamicPseudoType))}, env, 2))
 		case "attr":
+			if w.o.HalfTyped > 0 && len(b.Attrs[it.name].Hooks) > 0 && g.Chance(30) {
+				// hook-driven completion works on the raw text left and right of the cursor:
+				// unterminated strings with multi-byte text on both sides
+				w.attrLineRaw(level, it.name, Pick(g, []string{`"ab é x`, `"é`, `"pre é ü`, `"x é" é`, `"${var.a} é`}))
+				continue
+			}
 			w.attrLine(level, it.name, g.exprFor(b.Attrs[it.name].Cons, env, 2))
 		case "any":
 			w.attrLine(level, it.name, g.exprFor(b.AnyAttr.Cons, env, 2))
@@ -174,6 +180,10 @@ func (w *cfgWriter) body(b m.BodyM, level int, selfOK bool) {
 var halfTyped = []string{"", "", "", "provider::aws::f", "provider::aws::", "ns::", "var.", "var.a.", "f(", "fn(var.a, ", "[", "[var.a, ", "{", "{ a = ", "{ a = 1, ",
 	"\"${", "\"${var.", "\"abc", "true ? ", "true ? 1 : ", "1 + ", "!", "[for ", "[for x in ", "[for x in var.a : ", "var.a[", "var.a[\"", "self.", "count.", "each.", "<<EOT\n  x\n",
 	"lis", "t", "f", "nu", "obj", "list(", "object({", "(", "-"}
+
+func (w *cfgWriter) attrLineRaw(level int, name, expr string) {
+	w.sb.WriteString(w.ind(level) + name + " = " + expr + w.nl)
+}
 
 func (w *cfgWriter) attrLine(level int, name, expr string) {
 	if w.o.HalfTyped > 0 && w.g.Chance(w.o.HalfTyped) {
